@@ -1276,17 +1276,19 @@ class Store:
         # find the process and topology updates
         for path, process in source_process_paths:
             process_path = target_path + path
-            process_updates.append((
-                process_path, process.value))
             topology_updates.append((
                 process_path, process.topology))
             if process.value.is_step():
                 step_updates.append((
                     process_path, process.value))
-                # Note that process.flow may be None, indicating no
-                # flow.
-                flow_updates.append((
-                    process_path, process.flow))
+                # process.flow is None for steps without a flow
+                # (derivers), which have no flow entry to move.
+                if process.flow is not None:
+                    flow_updates.append((
+                        process_path, process.flow))
+            else:
+                process_updates.append((
+                    process_path, process.value))
 
         self._delete_path(source_path)
 
